@@ -31,7 +31,7 @@ def gen(tier, rng, shard, nshards):
             # the positive definite tree is declared PSD at the top, truthfully
             if node["k"] != "Annot":
                 node = {"k": "Annot", "name": "PSD", "arg": node}
-            alg = S.pick(rng, ["omitted", "Auto", "Cholesky", "CG", "CG", "LU", "GMRES"])
+            alg = S.pick(rng, ["omitted", "Auto", "Cholesky", "CG", "CG", "CG-P", "LU", "GMRES"])
         else:
             alg = S.pick(rng, ["omitted", "Auto", "LU", "LU", "GMRES"])
         tol = float(S.pick(rng, [1e-4, 1e-6, 1e-8, 1e-10])) if dt in ("f8", "c16") else float(S.pick(rng, [1e-3, 1e-4]))
@@ -64,8 +64,21 @@ def rescale_units(node, s):
     return scaled if ok[0] else node
 
 
-def make_alg(name, tol, n, single=False):
+def make_alg(name, tol, n, single=False, M=None, seed=0):
     from cola.linalg import CG, GMRES, LU, Auto, Cholesky
+    if name == "CG-P":
+        # a Hermitian positive definite preconditioner in units of its own: the requested tolerance is on the residual of the
+        # system, whatever the preconditioner does to the iteration
+        pk = ["jacobi", "scaled-identity-small", "scaled-identity-large", "inverse-of-neighbour"][seed % 4]
+        dtp = M.dtype
+        if pk == "jacobi":
+            Pop = cola.ops.Diagonal((1.0 / np.real(np.diag(M))).astype(dtp))
+        elif pk.startswith("scaled"):
+            Pop = cola.ops.ScalarMul(1e-6 if pk.endswith("small") else 1e6, M.shape, dtype=dtp)
+        else:
+            Hm = (M + M.conj().T) / 2
+            Pop = cola.ops.Dense(np.linalg.inv(Hm + 0.1 * np.linalg.norm(Hm, 2) * np.eye(n)).astype(dtp))
+        return (CG(tol=tol, max_iters=20 * n + 50, P=cola.PSD(Pop)), )
     if name == "omitted":
         return ()
     if name == "Auto":
@@ -103,7 +116,7 @@ def bounds(case, ref, cond, iterative, alg):
     direct = 2e3 * eps * cond * max(ref.M.shape[0], 4)
     if not iterative:
         return direct
-    if alg == "CG":
+    if alg in ("CG", "CG-P"):
         # stops when ||r||/||b|| <= tol*(1+||r0||/||b||) = 2 tol (x0 = 0); forward error <= cond * relative residual
         return 20 * case["tol"] * cond + direct
     # GMRES run to the full dimension: normal equations square the small problem's conditioning
@@ -118,14 +131,24 @@ def solve_checks(ctx, node, case, collect):
     n = ref.M.shape[0]
     cond = float(np.linalg.cond(ref.M))
     A = B.build(node)
-    alg = make_alg(case["alg"], case["tol"], n, single=ref.eps > 1e-10)
+    top = node
+    while top["k"] == "Annot":
+        top = top["arg"]
+    if case["alg"] == "CG-P" and top["k"] in ("Product", "Kronecker", "BlockDiag", "Diagonal", "ScalarMul", "Identity", "Permutation",
+                                               "Triangular", "Scaled", "Transpose", "Adjoint"):
+        # (a structural rule hands the algorithm object on to the factors / blocks, whose sizes a preconditioner made for the
+        # whole operator does not have: the preconditioned solver is only an admissible request where CG runs on the whole)
+        case = dict(case, alg="CG")
+    alg = make_alg(case["alg"], case["tol"], n, single=ref.eps > 1e-10, M=ref.M.astype(ref.dtype), seed=case["seed"])
+    if case["alg"] == "CG-P":
+        ctx.count("preconditioner", ["jacobi", "scaled-identity-small", "scaled-identity-large", "inverse-of-neighbour"][case["seed"] % 4])
     shape = (n, ) if case["cols"] == 0 else (n, case["cols"])
     b = P.operand(case["seed"], shape, case["bdt"], "normal")
     if b.ndim == 2 and b.shape[1] == 3 and case["seed"] % 2 == 0:
         # heterogeneous columns: the solution is judged column by column (a block-wide norm hides a tiny column that an
         # iterative solver stopped iterating on too early)
         b = (b * np.array([1e-6, 1.0, 1e6])[None, :]).astype(b.dtype)
-        if case["alg"] in ("CG", "GMRES", "Auto", "omitted") and n > 1:
+        if case["alg"] in ("CG", "CG-P", "GMRES", "Auto", "omitted") and n > 1:
             # ... and the large column is an eigenvector (an iterative solver is done with it after one step, long before the
             # tiny generic column has converged)
             w, V = np.linalg.eig(ref.M.astype(complex))
@@ -240,7 +263,7 @@ def run_case(ctx, case):
             s = R.shape_of(nd)
             if s[0] != s[1]:
                 return False
-            if case["alg"] in ("CG", "Cholesky") and "PSD" not in R.truth(R.dense(nd).M, 1e-9):
+            if case["alg"] in ("CG", "CG-P", "Cholesky") and "PSD" not in R.truth(R.dense(nd).M, 1e-9):
                 return False
             out = []
             solve_checks(ctx, nd, case, lambda o, k, d: out.append(k))
